@@ -8,7 +8,13 @@ CONSTANTS MaxToks, Toks, ByteAlphabet, MaxBytes, Mode, Kind
 Leads == {<<HASH>> \o [i \in 1..16 |-> 99] \o <<LF>>, [i \in 1..16 |-> LF], <<43, 120, COLON, SP>> \o [i \in 1..14 |-> 49] \o <<LF>>,
           <<HASH, LF, LF, HASH, HASH, LF, CR, LF>> \o [i \in 1..8 |-> LF], <<33, 120, COLON, SP, 49, LF>> \o [i \in 1..10 |-> LF]}
 LeadDocs == {pre \o Doc(ts, FALSE, TRUE) : pre \in Leads, ts \in TokSeqs(2, {1, 2, 4, 9})}
-TokDocs == {Doc(ts, crlf, final) : ts \in TokSeqs(MaxToks, Toks), crlf \in BOOLEAN, final \in BOOLEAN} \cup LeadDocs
+\* fields named like the members of the library's own Paragraph type (Order, Values) and like the type itself: field names
+\* like any other ("Order: p q", "Values: v", "Paragraph: x", alone and beside an ordinary field)
+nmOrder == <<79, 114, 100, 101, 114>>  nmValues == <<86, 97, 108, 117, 101, 115>>  nmPara == <<80, 97, 114, 97, 103, 114, 97, 112, 104>>
+NameDocs == {pre \o n \o <<COLON, SP, 112, SP, 113, LF>> \o post : n \in {nmOrder, nmValues, nmPara}, pre \in {<<>>, <<65, COLON, SP, 120, LF>>},
+                                                                   post \in {<<>>, <<66, COLON, LF, SP, 99, LF>>}}
+            \cup {nmOrder \o <<COLON, LF, 65, COLON, SP, 120, LF>>}
+TokDocs == {Doc(ts, crlf, final) : ts \in TokSeqs(MaxToks, Toks), crlf \in BOOLEAN, final \in BOOLEAN} \cup LeadDocs \cup NameDocs
 ByteDocs == SeqsUpTo(ByteAlphabet, MaxBytes)
 
 \* values = line sequences over {"", "a", " b"} with or without a trailing newline
